@@ -36,14 +36,23 @@ func collectTemplates(c *core.Ctx, r *core.Report) []viewTemplate {
 			continue
 		}
 		for f, v := range an.LiteralFields(lit) {
-			// template.Must(T.Parse(applyReplacements(CONST, repl)))
-			cur := v
-			var text *ssa.Const
-			for i := 0; i < 8 && cur != nil; i++ {
-				if ex, isEx := cur.(*ssa.Extract); isEx {
-					cur = ex.Tuple
+			// template.Must(T.Parse(replace(CONST, table))), possibly built by a helper that is given the text
+			isReplacer := func(f *ssa.Function) bool {
+				sig := f.Signature
+				if core.RelPkg(f) != viewsRel || sig.Params().Len() != 2 || sig.Results().Len() != 1 {
+					return false
 				}
-				call, ok := cur.(*ssa.Call)
+				_, isMap := sig.Params().At(1).Type().Underlying().(*types.Map)
+				return isMap && types.Identical(sig.Params().At(0).Type(), types.Typ[types.String]) && types.Identical(sig.Results().At(0).Type(), types.Typ[types.String])
+			}
+			cur := an.RootFV(pt, v)
+			var text *ssa.Const
+			for i := 0; i < 10; i++ {
+				cur = cur.Resolve(isReplacer)
+				if ex, isEx := cur.V.(*ssa.Extract); isEx {
+					cur = an.FV{V: ex.Tuple, F: cur.F}
+				}
+				call, ok := cur.V.(*ssa.Call)
 				if !ok {
 					break
 				}
@@ -51,17 +60,17 @@ func collectTemplates(c *core.Ctx, r *core.Report) []viewTemplate {
 				if t == nil {
 					break
 				}
-				switch t.Name() {
-				case "Must":
-					cur = call.Call.Args[0]
-				case "Parse":
-					cur = call.Call.Args[1]
-				case "applyReplacements":
-					text, _ = call.Call.Args[0].(*ssa.Const)
-					cur = nil
-				default:
-					cur = nil
+				switch {
+				case t.Name() == "Must":
+					cur = an.FV{V: call.Call.Args[0], F: cur.F}
+					continue
+				case t.Name() == "Parse":
+					cur = an.FV{V: call.Call.Args[1], F: cur.F}
+					continue
+				case isReplacer(t):
+					text, _ = (an.FV{V: call.Call.Args[0], F: cur.F}).Resolve(nil).V.(*ssa.Const)
 				}
+				break
 			}
 			if text == nil || text.Value == nil {
 				r.Undecided("parseTemplates#"+f, an.Pos(c, ret), "cannot recover the text of template %s", f)
@@ -173,6 +182,18 @@ func viewsSyntax(c *core.Ctx) (funcs map[string]*types.Signature, funcLits map[s
 						funcs[constant.StringVal(k)] = sig
 						if fl, ok := kv.Value.(*ast.FuncLit); ok {
 							funcLits[constant.StringVal(k)] = fl
+						}
+						// a named function of the package: its declaration is checked like a literal
+						if id, ok := kv.Value.(*ast.Ident); ok {
+							if fobj, isFn := p.TypesInfo.Uses[id].(*types.Func); isFn {
+								for _, sf := range p.Syntax {
+									for _, d := range sf.Decls {
+										if fd, isFD := d.(*ast.FuncDecl); isFD && p.TypesInfo.Defs[fd.Name] == types.Object(fobj) && fd.Body != nil {
+											funcLits[constant.StringVal(k)] = &ast.FuncLit{Type: fd.Type, Body: fd.Body}
+										}
+									}
+								}
+							}
 						}
 					}
 				}
@@ -346,7 +367,13 @@ func c19(c *core.Ctx, r *core.Report) {
 				if t == nil || t.Signature.Recv() == nil || !an.IsNamed(t.Signature.Recv().Type(), core.ModPath+"/"+viewsRel, "Views") {
 					continue
 				}
-				lit := an.StructLiteralOf(call.Common().Args[1])
+				// the view data: a literal here, or one built by a helper from this function's values
+				dataFV := an.RootFV(fn, call.Common().Args[1]).Resolve(nil)
+				lit, _ := dataFV.V.(*ssa.Alloc)
+				if lit == nil {
+					lit = an.StructLiteralOf(call.Common().Args[1])
+					dataFV = an.RootFV(fn, lit)
+				}
 				if lit == nil {
 					r.Undecided(name+"#literal", an.Pos(c, call), "view data is not a literal")
 					continue
@@ -362,7 +389,7 @@ func c19(c *core.Ctx, r *core.Report) {
 						continue
 					}
 					n++
-					d := an.D().Of(v)
+					d := descIn(an.FV{V: v, F: dataFV.F})
 					w, known := want[k]
 					if !known {
 						r.Note(key, an.Pos(c, call), "new key %s ← %s (no table entry; information)", k, d)
